@@ -83,7 +83,7 @@ EXPORT errno_t _strtolowercase_s_chk(char *restrict dest, rsize_t dmax,
         CHK_DEST_OVR("strtolowercase_s", destbos)
     }
 
-    while (*dest && dmax) {
+    while (dmax && *dest) {
 
         if ((*dest >= 'A') && (*dest <= 'Z')) {
             *dest = (char)(*dest + (char)32);
